@@ -328,3 +328,34 @@ func VH_C04_std_names(kind, which int) {
 	}
 	vreach("end")
 }
+
+// VH_C04_body_id: a stored rule whose body carries an "id" of its own (clients round-trip
+// rules they listed) that differs from the id it is stored under. Addressed by a trigger!
+// event, its action sees the storage id as ruleId, and a one-shot rule retires itself — not
+// the bystander that happens to be stored under the body's id.
+func VH_C04_body_id(kind, sched int) {
+	env, in := vhDispatchEnv(kind)
+	_, err := env.loc.AddRule(env.ctx, "zz", vhRule(map[string]interface{}{"never": "?x"}, "bystander"))
+	vassume(err == nil)
+	var r Map
+	if sched == 1 {
+		r = Map{"schedule": "+1h", "action": vhAction("act")}
+	} else {
+		r = vhRule(map[string]interface{}{"trigger!": "?x"}, "act")
+	}
+	r["id"] = "zz"
+	_, err = env.loc.AddRule(env.ctx, "r1", r)
+	vassume(err == nil)
+	env.loc.ProcessEvent(env.ctx, Map{"trigger!": "r1"})
+	vassert(len(in.execs) == 1, "each-action-exactly-once")
+	if len(in.execs) == 1 {
+		vassert(in.execs[0].ruleId == "r1", "ruleId-visible")
+	}
+	_, gerr := env.loc.GetRule(env.ctx, "zz")
+	vassert(gerr == nil, "other-rules-untouched")
+	if sched == 1 {
+		_, gerr = env.loc.GetRule(env.ctx, "r1")
+		vassert(gerr != nil, "one-shot-rule-retired")
+	}
+	vreach("end")
+}
